@@ -931,9 +931,12 @@ fn emit_family(prop: &str, seed: u64, quick: bool, out: &mut Vec<Fail>) -> usize
     let dir = scratch_dir();
     let stride = EMIT_SAMPLE.with(|c| std::mem::replace(&mut c.borrow_mut().0, 0));   // no sampling inside this family
     // generated programs (gen.rs): accepted by construction most of the time; only accepted ones are checked
-    let per = if quick { 150 } else { 2500 };
+    // the generated programs are split over the shards case by case (600 per pointer size in the quick tier, 2 500 in the
+    // thorough tier); the curated corpus and the pairs run in one shard
+    let per = if quick { 600 } else { 2500 };
     for ptr in [4usize, 8] {
         for i in 0..per {
+            if shard_skip(i) { continue; }
             let (mods, expect) = gen::program_with_expectation(seed, i as u64, ptr);
             n += 1;
             let mods_ref: Vec<(&str, String)> = mods.iter().map(|(k, s)| (*k, s.clone())).collect();
@@ -1038,8 +1041,9 @@ fn emit_family(prop: &str, seed: u64, quick: bool, out: &mut Vec<Fail>) -> usize
         }
     }
     // VERIF_NO_CORPUS=1: measurement only - how much do the generated programs catch without the curated corpus?
-    let no_corpus = std::env::var_os("VERIF_NO_CORPUS").is_some();
+    let no_corpus = std::env::var_os("VERIF_NO_CORPUS").is_some() || !shard_family(3);
     for ptr in [4usize, 8] {
+        if !shard_family(3) { break; }
         for (_label, mods) in emit_corpus::corpus() {
             if no_corpus { break; }
             n += 1;
@@ -1278,7 +1282,7 @@ fn run_family(prop: &str, seed: u64, quick: bool, out: &mut Vec<Fail>) -> usize 
     if EMIT_PROPS.contains(&prop) {
         // the backend check also runs on every k-th input the other families find accepted
         EMIT_SAMPLE.with(|c| { let mut c = c.borrow_mut(); c.0 = if quick { 97 } else { 13 }; c.1 = seed as usize % 7; });
-        if shard_family(3) { n += emit_family(prop, seed, quick, out); }
+        n += emit_family(prop, seed, quick, out);   // corpus and pairs in one shard, generated programs split case by case
     }
     if ["C01", "C02", "C03", "C12"].contains(&prop) { n += layout_family(seed, quick, prop, out); }   // split case by case
     if ["C04", "C16", "C02", "C12", "C14", "C06", "C20"].contains(&prop) && shard_family(4) { n += vft_family(prop, out); }
